@@ -20,7 +20,10 @@ package main
 //            Get returns next to "undefined symbol", and a script reading the
 //            same names and the literal nil) must not change. (The change
 //            api-Addr-store — a store through the pointer Env.Addr returns for a
-//            nil-bound name — waits behind c14PendingFix_addrNilCell.)
+//            nil-bound name — waits behind c14PendingFix_addrNilCell; the change
+//            script-struct-field-assign — a field store into a struct-typed
+//            binding, which is a value of its own in every environment — waits
+//            behind c14PendingFix_copySharesStructCell, c14_r5.go.)
 //   stamp    n environments are stamped from one template; the same source is
 //            run in each (in phase conc: at the same time, in the race build);
 //            all runs must yield the same value and error, and the template
@@ -296,7 +299,13 @@ var (
 	c14RootNames  = []string{"g1", "g2", "g3", "fset", "gm"}
 	c14ChildNames = []string{"l1", "l2", "lset"}
 	c14NewNames   = []string{"nw", "nm"}
-	c14WatchNames = []string{"g1", "g2", "g3", "fset", "fdel", "fget", "gm", "l1", "l2", "lset", "ldel", "nw", "nm", "s"}
+	c14WatchNames = func() []string {
+		w := []string{"g1", "g2", "g3", "fset", "fdel", "fget", "gm", "l1", "l2", "lset", "ldel", "nw", "nm", "s"}
+		if !c14PendingFix_copySharesStructCell {
+			w = append(w, "gs")
+		}
+		return w
+	}()
 	c14WatchTypes = []string{"GT", "LT", "NT"}
 )
 
@@ -312,7 +321,12 @@ type c14Tmpl struct {
 func c14NewTemplate(depth int, copyKind string) (*c14Tmpl, bool) {
 	t := &c14Tmpl{depth: depth, copyKind: copyKind}
 	t.root = ank.NewCoreEnv()
-	if o := ank.Exec(t.root, c14RootSetup); o.Err != nil || o.Panicked {
+	setup := c14RootSetup
+	if !c14PendingFix_copySharesStructCell {
+		// a binding of struct type: a value of its own in every environment (c14_r5.go)
+		setup += c14R5StructSetup
+	}
+	if o := ank.Exec(t.root, setup); o.Err != nil || o.Panicked {
 		return nil, false
 	}
 	t.t = t.root
@@ -396,10 +410,14 @@ type c14EnvMut struct {
 // c14EnvMutKinds is the number of kinds of change c14PickEnvMut draws from; the last one
 // (api-Addr-store) is held back while c14PendingFix_addrNilCell is set.
 var c14EnvMutKinds = func() int {
-	if c14PendingFix_addrNilCell {
+	switch {
+	case c14PendingFix_addrNilCell:
 		return 22
+	case c14PendingFix_copySharesStructCell:
+		return 23
 	}
-	return 23
+	// 23: a field of the struct-typed binding gs is stored (c14_r5.go)
+	return 24
 }()
 
 func c14Values(c *wk.Case) (interface{}, string) {
@@ -431,6 +449,13 @@ func c14PickEnvMut(c *wk.Case, t *c14Tmpl, allowClosures bool) c14EnvMut {
 	}
 	for {
 		switch c.Rng.Intn(c14EnvMutKinds) {
+		case 23:
+			// a struct is a value: storing a field changes the binding gs of THIS environment
+			// (under Env.Copy with two scopes gs lives in the shared parent scope)
+			if !t.rootIsolated() {
+				continue
+			}
+			return script("script-struct-field-assign", []string{"gs.X = " + fmt.Sprint(100+c.Rng.Intn(900)), "gs.S = \"changed\"", "gs.X++", "gs.X, nw = 7, 1"}[c.Rng.Intn(4)])
 		case 22:
 			// the host binds a name to nil, asks the env API for the address of the binding and
 			// stores through it: a change of THIS environment's binding (c14PendingFix_addrNilCell)
